@@ -806,9 +806,19 @@ func (in *c10Inliner) findCall(s ast.Stmt, depth int) *ast.Expr {
 	case *ast.ExprStmt:
 		slots = append(slots, &x.X)
 	case *ast.AssignStmt:
+		// the operands of index expressions, selections and indirections on the left are evaluated first, then
+		// the right-hand sides (`m[newKey(a, b)] = v`: the key constructor is an operand like any other); a
+		// plain identifier on the left has no operand
+		if x.Tok != token.DEFINE {
+			for i := range x.Lhs {
+				slots = append(slots, &x.Lhs[i])
+			}
+		}
 		for i := range x.Rhs {
 			slots = append(slots, &x.Rhs[i])
 		}
+	case *ast.IncDecStmt:
+		slots = append(slots, &x.X)
 	case *ast.ReturnStmt:
 		for i := range x.Results {
 			slots = append(slots, &x.Results[i])
